@@ -20,4 +20,4 @@ done
 for f in $(grep '^+++ b/' "$PATCH" | sed 's|^+++ b/||'); do
   ARGS="$ARGS --overlay $(src $f)=$TMP/$f"
 done
-VERIF_NO_REPLAY=1 VERIF_ROOT="$ROOT" "$ROOT/bin/govc" check --repo "${VERIF_REPO:-/repo}" --property "$PROP" --evidence "$TMP/evidence.json" --replays "$TMP/replays" $ARGS "$@"
+VERIF_NO_REPLAY=1 VERIF_ROOT="${VERIF_ROOT_OVERRIDE:-$ROOT}" "$ROOT/bin/govc" check --repo "${VERIF_REPO:-/repo}" --property "$PROP" --evidence "$TMP/evidence.json" --replays "$TMP/replays" $ARGS "$@"
